@@ -206,6 +206,13 @@ func txEvent(id uint64) abci.TxResult {
 }
 
 func scenario(name string, reqNames []string, maxTry uint64) gosched.Scenario {
+	return scenarioS(name, reqNames, nil, maxTry)
+}
+
+// scenarioS: requests in `startup` are found pending at daemon start (marked pending and handled by
+// `go handleRequest`, as runImpl does) and their tx event is delivered as well (the subscription is opened before
+// the pending query, so the event may arrive at any time).
+func scenarioS(name string, reqNames []string, startup []string, maxTry uint64) gosched.Scenario {
 	return gosched.Scenario{Name: name, New: func(worker int) (func(), func(*vsched.Sched) (string, []engine.Violation)) {
 		c := getChain(worker)
 		r := &run{c: c, maxTry: maxTry, answers: map[string]execAnswer{}, fetchErr: map[string]int{}, lastFail: map[string]bool{}}
@@ -227,6 +234,11 @@ func scenario(name string, reqNames []string, maxTry uint64) gosched.Scenario {
 					r.mu.Unlock()
 				}
 			})
+			for _, n := range startup {
+				id := oracletypes.RequestID(c.reqs[n])
+				yoda.VerifMarkPending(yc, id)
+				vsched.Go(func() { yoda.VerifHandleRequest(yc, l, id) })
+			}
 			for _, n := range reqNames {
 				ev := txEvent(c.reqs[n])
 				vsched.Go(func() { yoda.VerifHandleTransaction(yc, l, ev) }) // `go handleTransaction(...)` in runImpl
@@ -334,7 +346,7 @@ func init() {
 			if !quick {
 				pre, faults = 3, 2
 			}
-			r.Bound = fmt.Sprintf("(quick: the full preemption bound applies to the first scenario, 1 preemption to the others) scenarios: one request with a 3-byte and a 64-byte executable; a repeated data source plus a request that does not select the validator; two selecting requests concurrently; three raw requests (64/25/3-byte executables); all goroutine interleavings with <=%d preemptions x <=%d environment deviations (executor exit 0 / exit 1 / error per raw request; RPC failure on any query attempt, never persistent for request and data-source-hash queries; persistent for the executable fetch with maxTry=2)", pre, faults)
+			r.Bound = fmt.Sprintf("(quick: the full preemption bound applies to the first scenario, 1 preemption to the others) scenarios: one request with a 3-byte and a 64-byte executable; a repeated data source plus a request that does not select the validator; two selecting requests concurrently; a request found pending at start-up whose tx event also arrives (at any time); three raw requests (64/25/3-byte executables); all goroutine interleavings with <=%d preemptions x <=%d environment deviations (executor exit 0 / exit 1 / error per raw request; RPC failure on any query attempt, never persistent for request and data-source-hash queries; persistent for the executable fetch with maxTry=2)", pre, faults)
 			r.Assumptions = []string{
 				"scheduling points are goroutine creation, channel operations, sleeps and atomics of the instrumented yoda files; data races between scheduling points are the subject of a separate free-running -race pass",
 				"RPC answers come from the real application's Query on a committed state; executor and keyring are in-process fakes",
@@ -347,17 +359,24 @@ func init() {
 			deadline := r.Deadline(6*time.Minute, 45*time.Minute)
 			scs := []gosched.Scenario{
 				scenario("one-request-short-and-long-executable", []string{"A"}, 3),
-				scenario("repeated-source-and-foreign-request", []string{"B", "C"}, 3),
-				scenario("two-requests-concurrently", []string{"D", "A"}, 3),
 				scenario("fetch-fails-persistently(maxTry=2)", []string{"D"}, 2),
+				scenario("fetch-fails-persistently-repeated-source(maxTry=2)", []string{"B"}, 2),
+				scenarioS("pending-at-startup-and-event", []string{"D"}, []string{"D"}, 3),
+				scenario("repeated-source-and-foreign-request", []string{"B", "C"}, 3),
 			}
 			if !quick {
-				scs = append(scs, scenario("three-raw-requests", []string{"E"}, 3), scenario("three-requests-concurrently", []string{"A", "B", "D"}, 3))
+				scs = append(scs, scenario("two-requests-concurrently", []string{"D", "A"}, 3), scenario("three-raw-requests", []string{"E"}, 3), scenario("three-requests-concurrently", []string{"A", "B", "D"}, 3))
 			}
 			for i, sc := range scs {
 				b := gosched.Bounds{Preemptions: pre, Faults: faults, Deadline: deadline}
 				if quick && i > 0 {
 					b.Preemptions = 1 // quick: full preemption bound on the first scenario only
+				}
+				if quick && sc.Name == "two-requests-concurrently" {
+					b.Faults = 0 // quick: schedules only for the largest scenario (faults are covered by the smaller ones)
+				}
+				if strings.HasPrefix(sc.Name, "pending-at-startup") {
+					b.Preemptions = pre + 1 // the late event must be able to arrive after the start-up handling has finished
 				}
 				if strings.HasPrefix(sc.Name, "fetch-fails") {
 					b.Faults = 2
